@@ -88,8 +88,14 @@ def _all_names(fn):
     return out
 
 
+def _is_static(fn):
+    return len(fn.decorator_list) == 1 and isinstance(
+        fn.decorator_list[0], ast.Name) and \
+        fn.decorator_list[0].id == 'staticmethod'
+
+
 def _helper_ok(fn):
-    if fn.decorator_list:
+    if fn.decorator_list and not _is_static(fn):
         return False
     a = fn.args
     if a.vararg or a.kwarg or a.kwonlyargs or a.posonlyargs:
@@ -279,7 +285,7 @@ def _bind(call, helper, is_method):
     ndef = len(defaults)
     args = {}
     actual = list(call.args)
-    if is_method:
+    if is_method is True:
         actual = [call.func.value] + actual
     if len(actual) > len(params):
         return None
@@ -399,10 +405,104 @@ def _inline_at(site, helper, is_method):
     return True
 
 
+def _as_expression(fn):
+    """The helper as one expression when its body is only ``if c: return A``
+    guards and a final ``return``: nested conditional expressions."""
+    def conv(stmts):
+        if not stmts:
+            return None
+        s0, rest = stmts[0], stmts[1:]
+        if isinstance(s0, ast.Return):
+            return s0.value if s0.value is not None else ast.Constant(
+                value=None)
+        if isinstance(s0, ast.If) and len(s0.body) == 1 and isinstance(
+                s0.body[0], ast.Return):
+            a = conv(s0.body)
+            b = conv(list(s0.orelse) + ([] if s0.orelse and isinstance(
+                s0.orelse[-1], ast.Return) else rest)) if (
+                s0.orelse or rest) else None
+            if a is None or b is None:
+                return None
+            return ast.IfExp(test=s0.test, body=a, orelse=b)
+        return None
+    body = _strip_doc(fn.body)
+    if not body or len(body) > 4:
+        return None
+    if len(body) == 1 and isinstance(body[0], ast.Return):
+        # plain one-expression helpers are handled like any other
+        return None
+    return conv(body)
+
+
+def _inline_expression_helper(tree, fn, is_method):
+    """Replace every call of an expression-like helper by its expression
+    (possible in any position: loop tests, comprehensions, conditions).
+    Returns the callers' names, or None when some reference is not a plain
+    call with simple arguments."""
+    expr = _as_expression(fn)
+    if expr is None:
+        return None
+    parents = {}
+    for n in ast.walk(tree):
+        for c in ast.iter_child_nodes(n):
+            parents[c] = n
+    calls = []
+    for n in ast.walk(tree):
+        ref = None
+        if is_method and isinstance(n, ast.Attribute) and n.attr == fn.name:
+            ref = n
+        elif not is_method and isinstance(n, ast.Name) and n.id == fn.name:
+            ref = n
+        elif isinstance(n, ast.Constant) and n.value == fn.name:
+            return None
+        if ref is None:
+            continue
+        p = parents.get(ref)
+        if not (isinstance(p, ast.Call) and p.func is ref):
+            return None
+        if is_method and not _simple(ref.value):
+            return None
+        if any(isinstance(a, ast.Starred) for a in p.args) or any(
+                k.arg is None for k in p.keywords):
+            return None
+        args = _bind(p, fn, is_method)
+        if args is None:
+            return None
+        uses = {}
+        for m in ast.walk(expr):
+            if isinstance(m, ast.Name):
+                uses[m.id] = uses.get(m.id, 0) + 1
+        if any(not _simple(a) and uses.get(k, 0) > 1
+               for k, a in args.items()):
+            return None
+        calls.append((p, args))
+    if not calls:
+        return None
+    callers = set()
+    for p, args in calls:
+        new = _Subst(args, {}).visit(copy.deepcopy(expr))
+        ast.copy_location(new, p)
+        ast.fix_missing_locations(new)
+        _replace_node(tree, p, new)
+        q = p
+        while q is not None and not isinstance(q, ast.FunctionDef):
+            q = parents.get(q)
+        callers.add(q.name if q is not None else '?')
+    return callers
+
+
+# Pinned private helpers with a single caller whose canonical form is the
+# inlined one: the rules are written against the caller's body, so the
+# helper may exist or may have been folded into its caller.
+CANONICALLY_INLINED = {
+    ('vivarium.core.engine', '_invoke_process'),
+}
+
+
 def inline_new_helpers(trees):
     """``trees``: {module name: ast.Module}.  Mutates the trees.  Returns a
     list of 'module.qual -> caller' strings describing what was inlined."""
-    pinned = pinned_functions()
+    pinned = set(pinned_functions()) - CANONICALLY_INLINED
     done = []
     for _round in range(3):
         changed = False
@@ -416,8 +516,15 @@ def inline_new_helpers(trees):
                         if isinstance(sub, ast.FunctionDef):
                             cands.append((node.name + '.' + sub.name, sub,
                                           node))
+            pinned_short = {q.split('.')[-1] for m, q in pinned
+                            if m == modname}
+            inl_short = {q.split('.')[-1] for m, q in CANONICALLY_INLINED
+                         if m == modname}
             for qual, fn, cls in cands:
                 if (modname, qual) in pinned:
+                    continue
+                # a pinned function moved into a class or out of it
+                if fn.name in pinned_short and fn.name not in inl_short:
                     continue
                 if not fn.name.startswith('_') or fn.name.startswith('__'):
                     continue
@@ -426,8 +533,13 @@ def inline_new_helpers(trees):
                 if not _helper_ok(fn):
                     continue
                 is_method = cls is not None
-                if is_method and (not fn.args.args
-                                  or fn.args.args[0].arg != 'self'):
+                if _is_static(fn):
+                    if cls is None:
+                        continue
+                    # bound like a function, referenced like a method
+                    is_method = 'static'
+                elif is_method and (not fn.args.args
+                                    or fn.args.args[0].arg != 'self'):
                     continue
                 # references elsewhere in the package forbid inlining
                 other = False
@@ -457,6 +569,14 @@ def inline_new_helpers(trees):
                 holder = cls.body if cls else tree.body
                 pos = holder.index(fn)
                 del holder[pos]
+                who = _inline_expression_helper(tree, fn, is_method)
+                if who is not None:
+                    if not holder:
+                        holder.append(ast.Pass())
+                    done.append('%s.%s -> %s (as an expression)' % (
+                        modname, qual, ', '.join(sorted(who))))
+                    changed = True
+                    continue
                 sites, ok = _find_sites(tree, fn.name, is_method)
                 recursive = any(
                     (isinstance(n, ast.Attribute) and n.attr == fn.name)
@@ -671,12 +791,18 @@ def canonicalise(trees):
     """All canonical-form passes, repeated until nothing changes (one pass
     can expose work for another); returns {pass: number of rewrites}."""
     passes = [
-        keywords_to_positional, key_loops_to_items,
+        ifexp_tests_to_boolops,
+        keywords_to_positional, key_loops_to_items, key_loops_inline_reads,
+        list_iadd_to_extend, hoist_common_branch_tail,
+        dict_store_loops_to_comprehensions,
         loop_element_unpacking, append_loops_to_comprehensions,
         expand_update_displays, comprehension_key_loops,
         index_reads_to_unpacking, propagate_pure_aliases, ifexp_statements,
         split_parallel_copies, sink_branch_temps, thread_none_tests,
-        or_assignments, unroll_literal_loops, unnegate_ifs,
+        or_assignments, unroll_literal_loops, partial_eval_literal_dicts,
+        fold_constants, split_reassigned_locals, any_listcomp_to_loop,
+        filtered_snapshot_loops, split_returned_tuple_temps,
+        rename_copy_temps, unnegate_ifs,
         inline_single_use_temps,
     ]
     total = {}
@@ -691,6 +817,891 @@ def canonicalise(trees):
             break
     _SCOPES.clear()
     return total
+
+
+def any_listcomp_to_loop(trees):
+    """``if any([E for T in Y]): S`` (a list display: every E is evaluated
+    before the test) -> ``f = False; for T in Y: t = E; f = f or t`` followed
+    by ``if f: S``.  Also ``L = [E for T in Y]`` whose only read is
+    ``any(L)`` in the test of a later ``if`` of the same block.  A generator
+    argument is left alone: it stops at the first true element."""
+    n = 0
+    for tree in trees.values():
+        for fn in _fn_scopes(tree):
+            names = {m.id for m in ast.walk(fn) if isinstance(m, ast.Name)}
+
+            def fresh(base):
+                k = base
+                while k in names:
+                    k += '_'
+                names.add(k)
+                return k
+
+            def loop_for(comp, flag, at):
+                g = comp.generators[0]
+                tmp = fresh(flag + '_item')
+                body = [
+                    ast.Assign(targets=[ast.Name(id=tmp, ctx=ast.Store())],
+                               value=comp.elt, type_comment=None),
+                    ast.Assign(targets=[ast.Name(id=flag, ctx=ast.Store())],
+                               value=ast.BoolOp(op=ast.Or(), values=[
+                                   ast.Name(id=flag, ctx=ast.Load()),
+                                   ast.Name(id=tmp, ctx=ast.Load())]),
+                               type_comment=None)]
+                out = [ast.Assign(
+                    targets=[ast.Name(id=flag, ctx=ast.Store())],
+                    value=ast.Constant(value=False), type_comment=None),
+                    ast.For(target=g.target, iter=g.iter, body=body,
+                            orelse=[], type_comment=None)]
+                for o in out:
+                    ast.copy_location(o, at)
+                    ast.fix_missing_locations(o)
+                return out
+
+            def plain(comp):
+                return isinstance(comp, ast.ListComp) and len(
+                    comp.generators) == 1 and not comp.generators[0].ifs \
+                    and not comp.generators[0].is_async
+
+            for blk in _blocks(fn):
+                i = 0
+                while i < len(blk):
+                    st = blk[i]
+                    i += 1
+                    if isinstance(st, ast.If) and isinstance(
+                            st.test, ast.Call) and isinstance(
+                            st.test.func, ast.Name) and \
+                            st.test.func.id == 'any' and len(
+                                st.test.args) == 1 and not st.test.keywords:
+                        a = st.test.args[0]
+                        if plain(a):
+                            flag = fresh('any_flag')
+                            pre = loop_for(a, flag, st)
+                            st.test = ast.copy_location(
+                                ast.Name(id=flag, ctx=ast.Load()), st.test)
+                            j = blk.index(st)
+                            blk[j:j] = pre
+                            i = j + len(pre) + 1
+                            n += 1
+                            continue
+                        if isinstance(a, ast.Name):
+                            # L = [..] earlier in this block, read only here
+                            reads = [m for m in ast.walk(fn) if isinstance(
+                                m, ast.Name) and m.id == a.id and isinstance(
+                                m.ctx, ast.Load)]
+                            stores = [m for m in ast.walk(fn) if isinstance(
+                                m, ast.Name) and m.id == a.id and isinstance(
+                                m.ctx, ast.Store)]
+                            j = blk.index(st)
+                            defs = [d for d in blk[:j] if isinstance(
+                                d, ast.Assign) and len(d.targets) == 1 and
+                                isinstance(d.targets[0], ast.Name) and
+                                d.targets[0].id == a.id]
+                            if len(reads) == 1 and len(stores) == 1 and \
+                                    len(defs) == 1 and plain(defs[0].value):
+                                d = defs[0]
+                                pre = loop_for(d.value, a.id, d)
+                                k = blk.index(d)
+                                blk[k:k + 1] = pre
+                                st.test = ast.copy_location(
+                                    ast.Name(id=a.id, ctx=ast.Load()),
+                                    st.test)
+                                n += 1
+    return n
+
+
+def filtered_snapshot_loops(trees):
+    """``L = [t for t in Y if C]`` directly followed by ``for u in L: B``
+    (L read nowhere else) -> ``for u in list(Y): if C[t:=u]: B``.  Only when
+    C reads nothing but the element and locals that B does not assign, and
+    no attribute of ``self``: then filtering up front and filtering while
+    looping select the same elements."""
+    n = 0
+    for tree in trees.values():
+        for fn in _fn_scopes(tree):
+            for blk in _blocks(fn):
+                i = 0
+                while i + 1 < len(blk):
+                    d, lp = blk[i], blk[i + 1]
+                    i += 1
+                    if not (isinstance(d, ast.Assign) and len(d.targets) == 1
+                            and isinstance(d.targets[0], ast.Name)
+                            and isinstance(d.value, ast.ListComp)
+                            and len(d.value.generators) == 1
+                            and isinstance(lp, ast.For) and not lp.orelse
+                            and isinstance(lp.iter, ast.Name)
+                            and lp.iter.id == d.targets[0].id):
+                        continue
+                    g = d.value.generators[0]
+                    if len(g.ifs) != 1 or g.is_async or not isinstance(
+                            g.target, ast.Name) or not isinstance(
+                            d.value.elt, ast.Name) or \
+                            d.value.elt.id != g.target.id or not isinstance(
+                                lp.target, ast.Name):
+                        continue
+                    L = d.targets[0].id
+                    uses = [m for m in ast.walk(fn) if isinstance(
+                        m, ast.Name) and m.id == L]
+                    if len(uses) != 2:
+                        continue
+                    cond = g.ifs[0]
+                    if any(isinstance(m, ast.Attribute) for m in
+                           ast.walk(cond)):
+                        continue
+                    cnames = {m.id for m in ast.walk(cond)
+                              if isinstance(m, ast.Name)} - {g.target.id}
+                    assigned = {m.id for b in lp.body for m in ast.walk(b)
+                                if isinstance(m, ast.Name) and isinstance(
+                                    m.ctx, (ast.Store, ast.Del))}
+                    if cnames & assigned:
+                        continue
+                    cond = _Subst({g.target.id: ast.Name(
+                        id=lp.target.id, ctx=ast.Load())}, {}).visit(
+                        copy.deepcopy(cond))
+                    test = ast.If(test=cond, body=lp.body, orelse=[])
+                    ast.copy_location(test, lp)
+                    lp.body = [test]
+                    y = g.iter
+                    if not (isinstance(y, ast.Call) and isinstance(
+                            y.func, ast.Name) and y.func.id == 'list'):
+                        y = ast.Call(func=ast.Name(id='list', ctx=ast.Load()),
+                                     args=[y], keywords=[])
+                    lp.iter = ast.copy_location(y, lp.iter)
+                    ast.fix_missing_locations(lp)
+                    blk.remove(d)
+                    n += 1
+    return n
+
+
+def split_returned_tuple_temps(trees):
+    """``x = (a, f(b), c)`` ... ``return x`` (x assigned once, read once, by
+    that return) -> ``x_1 = f(b)`` at the place of the assignment and
+    ``return (a, x_1, c)``: the returned tuple is a display again, the
+    elements are evaluated where they were."""
+    n = 0
+    for tree in trees.values():
+        for fn in _fn_scopes(tree):
+            names = {m.id for m in ast.walk(fn) if isinstance(m, ast.Name)}
+            for blk in list(_blocks(fn)):
+                for st in list(blk):
+                    if not (isinstance(st, ast.Assign) and len(st.targets) == 1
+                            and isinstance(st.targets[0], ast.Name)
+                            and isinstance(st.value, ast.Tuple)
+                            and st.value.elts and not any(
+                                isinstance(e, ast.Starred)
+                                for e in st.value.elts)):
+                        continue
+                    x = st.targets[0].id
+                    refs = [m for m in ast.walk(fn)
+                            if isinstance(m, ast.Name) and m.id == x]
+                    loads = [m for m in refs if isinstance(m.ctx, ast.Load)]
+                    if len(refs) != 2 or len(loads) != 1:
+                        continue
+                    rets = [r for r in ast.walk(fn) if isinstance(
+                        r, ast.Return) and r.value is loads[0]]
+                    if len(rets) != 1:
+                        continue
+                    stored = {m.id for m in ast.walk(fn) if isinstance(
+                        m, ast.Name) and isinstance(m.ctx, ast.Store)}
+                    new, elts = [], []
+                    for k, e in enumerate(st.value.elts):
+                        if isinstance(e, ast.Constant) or (isinstance(
+                                e, ast.Name) and sum(
+                                1 for m in ast.walk(fn) if isinstance(
+                                    m, ast.Name) and m.id == e.id and
+                                isinstance(m.ctx, ast.Store)) <= 1):
+                            elts.append(e)
+                            continue
+                        nm = '%s_%d' % (x, k)
+                        while nm in names:
+                            nm += '_'
+                        names.add(nm)
+                        a = ast.Assign(targets=[ast.Name(
+                            id=nm, ctx=ast.Store())], value=e,
+                            type_comment=None)
+                        ast.copy_location(a, st)
+                        ast.fix_missing_locations(a)
+                        new.append(a)
+                        elts.append(ast.Name(id=nm, ctx=ast.Load()))
+                    j = blk.index(st)
+                    blk[j:j + 1] = new or [ast.copy_location(ast.Pass(), st)]
+                    rets[0].value = ast.copy_location(
+                        ast.Tuple(elts=elts, ctx=ast.Load()), rets[0])
+                    ast.fix_missing_locations(rets[0])
+                    n += 1
+    return n
+
+
+def rename_copy_temps(trees):
+    """``t = ...`` (possibly in several branches) ... ``x = t`` where t is
+    not used after this copy and x does not occur before it: t is simply
+    called x and the copy is dropped."""
+    n = 0
+    for tree in trees.values():
+        for fn in _fn_scopes(tree):
+            changed = True
+            while changed:
+                changed = False
+                order = []
+
+                def visit(node):
+                    for ch in ast.iter_child_nodes(node):
+                        if isinstance(ch, (ast.FunctionDef, ast.ClassDef,
+                                           ast.AsyncFunctionDef, ast.Lambda)):
+                            continue
+                        # evaluation order: the value of an assignment
+                        # comes before its targets
+                        order.append(ch)
+                        visit(ch)
+                visit(fn)
+                pos = {id(x): i for i, x in enumerate(order)}
+                occ = {}
+                for x in order:
+                    if isinstance(x, ast.Name):
+                        occ.setdefault(x.id, []).append(x)
+                params = {a.arg for a in fn.args.args + fn.args.kwonlyargs}
+                closed = {y.id for m in ast.walk(fn) if m is not fn and
+                          isinstance(m, (ast.FunctionDef, ast.Lambda,
+                                         ast.AsyncFunctionDef, ast.ClassDef))
+                          for y in ast.walk(m) if isinstance(y, ast.Name)}
+                for blk in _blocks(fn):
+                    for st in list(blk):
+                        if not (isinstance(st, ast.Assign) and
+                                len(st.targets) == 1 and
+                                isinstance(st.targets[0], ast.Name) and
+                                isinstance(st.value, ast.Name)):
+                            continue
+                        x, t = st.targets[0].id, st.value.id
+                        if x == t or x in params or x in closed or \
+                                t in closed:
+                            continue
+                        to = occ.get(t, [])
+                        # t must be a local of this function
+                        if t not in params and not any(
+                                isinstance(m.ctx, ast.Store) for m in to):
+                            continue
+                        here = pos.get(id(st))
+                        if here is None:
+                            continue
+                        # t is not used after the copy
+                        if any(pos[id(m)] > pos[id(st.value)] for m in to):
+                            continue
+                        if any(pos[id(m)] < here for m in occ.get(x, [])):
+                            continue
+                        # a loop around the copy would carry x back up
+                        if any(isinstance(a, (ast.For, ast.While))
+                               and any(m is st for m in ast.walk(a))
+                               and not all(any(m2 is q for q in ast.walk(a))
+                                           for m2 in to)
+                               for a in order):
+                            continue
+                        if t in params:
+                            # the parameter keeps its name
+                            for m in occ.get(x, []):
+                                m.id = t
+                        else:
+                            for m in to:
+                                m.id = x
+                        if len(blk) > 1:
+                            blk.remove(st)
+                        else:
+                            blk[0] = ast.copy_location(ast.Pass(), st)
+                        n += 1
+                        changed = True
+                        break
+                    if changed:
+                        break
+    return n
+
+
+def key_loops_inline_reads(trees):
+    """``for k in d: ... d[k] ...`` (d a plain name that the body neither
+    re-binds nor stores into; every use of d in the body is the read
+    ``d[k]``) -> ``for k, d_value in d.items(): ... d_value ...``."""
+    n = 0
+    for tree in trees.values():
+        for fn in _fn_scopes(tree):
+            names = {m.id for m in ast.walk(fn) if isinstance(m, ast.Name)}
+            for loop in ast.walk(fn):
+                if not isinstance(loop, ast.For) or not isinstance(
+                        loop.target, ast.Name) or loop.orelse:
+                    continue
+                d = loop.iter
+                if isinstance(d, ast.Call) and isinstance(
+                        d.func, ast.Attribute) and d.func.attr == 'keys' \
+                        and not d.args:
+                    d = d.func.value
+                if not isinstance(d, ast.Name):
+                    continue
+                k = loop.target.id
+                parents = {}
+                for b in loop.body:
+                    for m in ast.walk(b):
+                        for c in ast.iter_child_nodes(m):
+                            parents[c] = m
+                uses = [m for b in loop.body for m in ast.walk(b)
+                        if isinstance(m, ast.Name) and m.id == d.id]
+                if not uses:
+                    continue
+                reads = []
+                ok = True
+                for u in uses:
+                    p = parents.get(u)
+                    if isinstance(p, ast.Subscript) and p.value is u and \
+                            isinstance(p.ctx, ast.Load) and isinstance(
+                                p.slice, ast.Name) and p.slice.id == k:
+                        reads.append(p)
+                    else:
+                        ok = False
+                if not ok or any(
+                        isinstance(m, ast.Name) and m.id == k and
+                        not isinstance(m.ctx, ast.Load)
+                        for b in loop.body for m in ast.walk(b)):
+                    continue
+                v = d.id + '_value'
+                while v in names:
+                    v += '_'
+                names.add(v)
+                for r in reads:
+                    new = ast.copy_location(ast.Name(id=v, ctx=ast.Load()), r)
+                    gp = parents.get(r)
+                    if gp is None:
+                        # the read is itself a statement's direct child
+                        for b in loop.body:
+                            _replace_node(b, r, new)
+                        continue
+                    for f2, val in ast.iter_fields(gp):
+                        if val is r:
+                            setattr(gp, f2, new)
+                        elif isinstance(val, list):
+                            for j, y in enumerate(val):
+                                if y is r:
+                                    val[j] = new
+                loop.target = ast.copy_location(ast.Tuple(
+                    elts=[ast.Name(id=k, ctx=ast.Store()),
+                          ast.Name(id=v, ctx=ast.Store())],
+                    ctx=ast.Store()), loop.target)
+                loop.iter = ast.copy_location(ast.Call(
+                    func=ast.Attribute(value=ast.Name(id=d.id, ctx=ast.Load()),
+                                       attr='items', ctx=ast.Load()),
+                    args=[], keywords=[]), loop.iter)
+                ast.fix_missing_locations(loop.target)
+                ast.fix_missing_locations(loop.iter)
+                n += 1
+    return n
+
+
+def list_iadd_to_extend(trees):
+    """``x += E`` where x is a local whose every plain assignment is a list
+    display or list comprehension -> ``x.extend(E)``."""
+    n = 0
+    for tree in trees.values():
+        for fn in _fn_scopes(tree):
+            assigns = {}
+            for m in ast.walk(fn):
+                if isinstance(m, (ast.Assign, ast.AnnAssign)):
+                    tg = m.targets if isinstance(m, ast.Assign) else [
+                        m.target]
+                    for t in tg:
+                        for y in ast.walk(t):
+                            if isinstance(y, ast.Name):
+                                assigns.setdefault(y.id, []).append(
+                                    m.value if t is y else None)
+                elif isinstance(m, (ast.For, ast.comprehension)):
+                    for y in ast.walk(m.target):
+                        if isinstance(y, ast.Name):
+                            assigns.setdefault(y.id, []).append(None)
+            params = {a.arg for a in fn.args.args + fn.args.kwonlyargs}
+            for blk in _blocks(fn):
+                for j, st in enumerate(blk):
+                    if isinstance(st, ast.AugAssign) and isinstance(
+                            st.op, ast.Add) and isinstance(
+                            st.target, ast.Name):
+                        x = st.target.id
+                        vals = assigns.get(x)
+                        if not vals or x in params or not all(
+                                isinstance(v, (ast.List, ast.ListComp))
+                                for v in vals):
+                            continue
+                        call = ast.Expr(value=ast.Call(
+                            func=ast.Attribute(
+                                value=ast.Name(id=x, ctx=ast.Load()),
+                                attr='extend', ctx=ast.Load()),
+                            args=[st.value], keywords=[]))
+                        ast.copy_location(call, st)
+                        ast.fix_missing_locations(call)
+                        blk[j] = call
+                        n += 1
+    return n
+
+
+def hoist_common_branch_tail(trees):
+    """``if c: A; S else: B; S`` (the same last statement in both branches,
+    not a control transfer) -> ``if c: A else: B`` followed by ``S``."""
+    n = 0
+    for tree in trees.values():
+        for fn in _fn_scopes(tree):
+            for blk in _blocks(fn):
+                j = 0
+                while j < len(blk):
+                    st = blk[j]
+                    j += 1
+                    if not (isinstance(st, ast.If) and st.body and st.orelse):
+                        continue
+                    a, b = st.body[-1], st.orelse[-1]
+                    if isinstance(a, (ast.Return, ast.Raise, ast.Continue,
+                                      ast.Break, ast.Pass, ast.If, ast.For,
+                                      ast.While, ast.Try, ast.With)):
+                        continue
+                    if ast.dump(a) != ast.dump(b):
+                        continue
+                    st.body = st.body[:-1] or [ast.copy_location(
+                        ast.Pass(), a)]
+                    st.orelse = st.orelse[:-1]
+                    if not st.orelse and len(st.body) == 1 and isinstance(
+                            st.body[0], ast.Pass):
+                        # nothing left: only the test is evaluated
+                        blk[j - 1] = ast.copy_location(
+                            ast.Expr(value=st.test), st)
+                    elif len(st.body) == 1 and isinstance(
+                            st.body[0], ast.Pass) and st.orelse:
+                        st.test = ast.copy_location(ast.UnaryOp(
+                            op=ast.Not(), operand=st.test), st.test)
+                        st.body, st.orelse = st.orelse, []
+                    blk.insert(j, a)
+                    j -= 1      # look at the same `if` again
+                    n += 1
+    return n
+
+
+def dict_store_loops_to_comprehensions(trees):
+    """``x = {}`` directly followed by ``for T in Y: [if C:] x[K] = V`` (the
+    whole loop body; K, V, C do not read x) -> ``x = {K: V for T in Y [if
+    C]}``."""
+    n = 0
+    for tree in trees.values():
+        for fn in _fn_scopes(tree):
+            for blk in _blocks(fn):
+                i = 0
+                while i + 1 < len(blk):
+                    d, lp = blk[i], blk[i + 1]
+                    i += 1
+                    if not (isinstance(d, (ast.Assign, ast.AnnAssign)) and
+                            isinstance(d.value, ast.Dict) and
+                            not d.value.keys and isinstance(lp, ast.For)
+                            and not lp.orelse and len(lp.body) == 1):
+                        continue
+                    tg = d.targets[0] if isinstance(d, ast.Assign) and len(
+                        d.targets) == 1 else getattr(d, 'target', None)
+                    if not isinstance(tg, ast.Name):
+                        continue
+                    x = tg.id
+                    inner, conds = lp.body[0], []
+                    while isinstance(inner, ast.If) and not inner.orelse \
+                            and len(inner.body) == 1:
+                        conds.append(inner.test)
+                        inner = inner.body[0]
+                    if not (isinstance(inner, ast.Assign) and
+                            len(inner.targets) == 1 and isinstance(
+                                inner.targets[0], ast.Subscript) and
+                            isinstance(inner.targets[0].value, ast.Name)
+                            and inner.targets[0].value.id == x):
+                        continue
+                    K, V = inner.targets[0].slice, inner.value
+                    if any(isinstance(m, ast.Name) and m.id == x
+                           for e in [K, V, lp.iter] + conds
+                           for m in ast.walk(e)):
+                        continue
+                    comp = ast.DictComp(key=K, value=V, generators=[
+                        ast.comprehension(target=lp.target, iter=lp.iter,
+                                          ifs=conds, is_async=0)])
+                    d.value = ast.copy_location(comp, d.value)
+                    ast.fix_missing_locations(d)
+                    blk.remove(lp)
+                    n += 1
+    return n
+
+
+def ifexp_tests_to_boolops(trees):
+    """In the test of an ``if``/``while``: ``A if c else False`` -> ``c and
+    A``; ``True if c else B`` -> ``c or B``; ``False if c else B`` -> ``not
+    c and B``; ``A if c else True`` -> ``not c or A``; ``not not x`` ->
+    ``x``.  (Truthiness is all a test looks at.)"""
+    n = 0
+
+    def const(e, v):
+        return isinstance(e, ast.Constant) and e.value is v
+
+    def neg(c):
+        if isinstance(c, ast.UnaryOp) and isinstance(c.op, ast.Not):
+            return c.operand
+        return ast.copy_location(ast.UnaryOp(op=ast.Not(), operand=c), c)
+
+    def fix(e):
+        nonlocal n
+        if isinstance(e, ast.UnaryOp) and isinstance(e.op, ast.Not):
+            e.operand = fix(e.operand)
+            if isinstance(e.operand, ast.UnaryOp) and isinstance(
+                    e.operand.op, ast.Not):
+                n += 1
+                return e.operand.operand
+            return e
+        if isinstance(e, ast.BoolOp):
+            e.values = [fix(v) for v in e.values]
+            return e
+        if isinstance(e, ast.IfExp):
+            c, a, b = fix(e.test), fix(e.body), fix(e.orelse)
+            new = None
+            if const(b, False):
+                new = ast.BoolOp(op=ast.And(), values=[c, a])
+            elif const(a, True):
+                new = ast.BoolOp(op=ast.Or(), values=[c, b])
+            elif const(a, False):
+                new = ast.BoolOp(op=ast.And(), values=[neg(c), b])
+            elif const(b, True):
+                new = ast.BoolOp(op=ast.Or(), values=[neg(c), a])
+            if new is not None:
+                n += 1
+                ast.copy_location(new, e)
+                ast.fix_missing_locations(new)
+                return new
+            e.test, e.body, e.orelse = c, a, b
+        return e
+
+    for tree in trees.values():
+        for node in ast.walk(tree):
+            if isinstance(node, (ast.If, ast.While)):
+                node.test = fix(node.test)
+    return n
+
+
+def _literal_dict_locals(fn):
+    """{name: Assign} for locals bound exactly once, to a dictionary
+    display with constant string keys (at most 8) or to a dictionary
+    comprehension that was expanded to one, and used only as ``D[...]``,
+    ``D.items()/keys()/values()`` or as the iterable of a loop or
+    comprehension."""
+    stores = {}
+    for m in ast.walk(fn):
+        if isinstance(m, ast.Name) and isinstance(m.ctx, (ast.Store,
+                                                          ast.Del)):
+            stores[m.id] = stores.get(m.id, 0) + 1
+    params = {a.arg for a in fn.args.args + fn.args.kwonlyargs}
+    parents = {}
+    for m in ast.walk(fn):
+        for c in ast.iter_child_nodes(m):
+            parents[c] = m
+    out = {}
+    for st in ast.walk(fn):
+        if not (isinstance(st, (ast.Assign, ast.AnnAssign)) and isinstance(
+                st.value, ast.Dict) and st.value.keys and len(
+                st.value.keys) <= 8 and all(
+                isinstance(k, ast.Constant) and isinstance(k.value, str)
+                for k in st.value.keys)):
+            continue
+        tg = st.targets[0] if isinstance(st, ast.Assign) and len(
+            st.targets) == 1 else getattr(st, 'target', None)
+        if not isinstance(tg, ast.Name) or stores.get(tg.id) != 1 or \
+                tg.id in params:
+            continue
+        if len({k.value for k in st.value.keys}) != len(st.value.keys):
+            continue
+        ok = True
+        for m in ast.walk(fn):
+            if not (isinstance(m, ast.Name) and m.id == tg.id
+                    and m is not tg):
+                continue
+            p = parents.get(m)
+            if isinstance(p, ast.Subscript) and p.value is m:
+                continue
+            if isinstance(p, ast.Attribute) and p.attr in (
+                    'items', 'keys', 'values') and isinstance(
+                    parents.get(p), ast.Call) and parents[p].func is p:
+                gp = parents.get(parents[p])
+                if isinstance(gp, (ast.For, ast.comprehension)) and \
+                        gp.iter is parents[p]:
+                    continue
+            if isinstance(p, (ast.For, ast.comprehension)) and p.iter is m:
+                continue
+            ok = False
+            break
+        if ok:
+            out[tg.id] = st
+    return out
+
+
+def partial_eval_literal_dicts(trees):
+    """Data-driven code over a literal dictionary of parts is specialised:
+    ``D = {'a': x, 'b': y}`` (never re-bound, used only through ``D[k]`` and
+    loops over it) - loops and comprehensions over D are unrolled with the
+    constant keys, then ``D['a']`` becomes the local ``D_a``.  Together with
+    ``getattr(o, 'name')`` -> ``o.name`` and folding of comparisons between
+    constants this turns "one loop over the parts" back into the
+    statement-per-part form the rules read."""
+    n = 0
+    for tree in trees.values():
+        for fn in _fn_scopes(tree):
+            for _round in range(6):
+                lits = _literal_dict_locals(fn)
+                if not lits:
+                    break
+                changed = False
+                # 1. comprehensions over D -> displays
+                for comp in [m for m in ast.walk(fn) if isinstance(
+                        m, (ast.DictComp, ast.ListComp))]:
+                    if len(comp.generators) != 1 or comp.generators[0].ifs:
+                        continue
+                    g = comp.generators[0]
+                    it = _iter_of_literal(g.iter, lits)
+                    if it is None:
+                        continue
+                    D, kind = it
+                    binds = _bindings(g.target, D, kind, lits)
+                    if binds is None:
+                        continue
+                    if isinstance(comp, ast.DictComp):
+                        keys, vals = [], []
+                        for b in binds:
+                            sub = _Subst(b, {})
+                            keys.append(sub.visit(copy.deepcopy(comp.key)))
+                            vals.append(sub.visit(copy.deepcopy(comp.value)))
+                        new = ast.Dict(keys=keys, values=vals)
+                    else:
+                        new = ast.List(elts=[_Subst(b, {}).visit(
+                            copy.deepcopy(comp.elt)) for b in binds],
+                            ctx=ast.Load())
+                    ast.copy_location(new, comp)
+                    ast.fix_missing_locations(new)
+                    _replace_node(fn, comp, new)
+                    changed = True
+                    n += 1
+                    break
+                if changed:
+                    continue
+                # 2. loops over D -> unrolled
+                for blk in _blocks(fn):
+                    for st in list(blk):
+                        if not (isinstance(st, ast.For) and not st.orelse):
+                            continue
+                        it = _iter_of_literal(st.iter, lits)
+                        if it is None:
+                            continue
+                        D, kind = it
+                        binds = _bindings(st.target, D, kind, lits)
+                        if binds is None:
+                            continue
+                        tn = {m.id for m in ast.walk(st.target)
+                              if isinstance(m, ast.Name)}
+                        inner = [m for b in st.body for m in ast.walk(b)]
+                        if any(isinstance(m, (ast.Break, ast.Continue,
+                                              ast.Lambda, ast.FunctionDef))
+                               for m in inner):
+                            continue
+                        if any(isinstance(m, ast.Name) and m.id in tn and
+                               not isinstance(m.ctx, ast.Load)
+                               for m in inner):
+                            continue
+                        used_after = any(
+                            isinstance(m, ast.Name) and m.id in tn
+                            for y in blk[blk.index(st) + 1:]
+                            for m in ast.walk(y))
+                        if used_after:
+                            continue
+                        new = []
+                        for b in binds:
+                            sub = _Subst(b, {})
+                            new += [sub.visit(copy.deepcopy(x))
+                                    for x in st.body]
+                        k = blk.index(st)
+                        blk[k:k + 1] = new
+                        changed = True
+                        n += 1
+                        break
+                    if changed:
+                        break
+                if changed:
+                    continue
+                # 3. D used only as D['const'] -> scalars
+                for D, st in lits.items():
+                    uses = [m for m in ast.walk(fn) if isinstance(
+                        m, ast.Subscript) and isinstance(m.value, ast.Name)
+                        and m.value.id == D]
+                    others = [m for m in ast.walk(fn) if isinstance(
+                        m, ast.Name) and m.id == D]
+                    keys = [k.value for k in st.value.keys]
+                    if len(others) != len(uses) + 1 or not all(
+                            isinstance(u.slice, ast.Constant) and
+                            u.slice.value in keys for u in uses):
+                        continue
+                    names = {m.id for m in ast.walk(fn)
+                             if isinstance(m, ast.Name)}
+                    loc = {}
+                    for k in keys:
+                        nm = '%s_%s' % (D, k)
+                        while nm in names:
+                            nm += '_'
+                        names.add(nm)
+                        loc[k] = nm
+                    for u in uses:
+                        new = ast.copy_location(ast.Name(
+                            id=loc[u.slice.value], ctx=u.ctx), u)
+                        _replace_node(fn, u, new)
+                    repl = []
+                    for k, v in zip(keys, st.value.values):
+                        a = ast.Assign(targets=[ast.Name(
+                            id=loc[k], ctx=ast.Store())], value=v,
+                            type_comment=None)
+                        ast.copy_location(a, st)
+                        ast.fix_missing_locations(a)
+                        repl.append(a)
+                    for blk in _blocks(fn):
+                        if st in blk:
+                            j = blk.index(st)
+                            blk[j:j + 1] = repl
+                            break
+                    changed = True
+                    n += 1
+                    break
+                if not changed:
+                    break
+    return n
+
+
+def _iter_of_literal(it, lits):
+    """(D, 'keys'|'items'|'values') when ``it`` iterates a literal dict."""
+    if isinstance(it, ast.Name) and it.id in lits:
+        return it.id, 'keys'
+    if isinstance(it, ast.Call) and isinstance(it.func, ast.Attribute) and \
+            isinstance(it.func.value, ast.Name) and \
+            it.func.value.id in lits and not it.args and it.func.attr in (
+                'keys', 'items', 'values'):
+        return it.func.value.id, it.func.attr
+    if isinstance(it, ast.Call) and isinstance(it.func, ast.Name) and \
+            it.func.id in ('list', 'tuple', 'sorted') and len(
+                it.args) == 1 and not it.keywords and it.func.id != 'sorted':
+        return _iter_of_literal(it.args[0], lits)
+    return None
+
+
+def _bindings(target, D, kind, lits):
+    """One {target name: expression} mapping per entry of the literal."""
+    keys = [k for k in lits[D].value.keys]
+
+    def val(k):
+        return ast.Subscript(value=ast.Name(id=D, ctx=ast.Load()),
+                             slice=ast.Constant(value=k.value),
+                             ctx=ast.Load())
+    out = []
+    for k in keys:
+        if kind == 'keys' and isinstance(target, ast.Name):
+            out.append({target.id: ast.Constant(value=k.value)})
+        elif kind == 'values' and isinstance(target, ast.Name):
+            out.append({target.id: val(k)})
+        elif kind == 'items' and isinstance(target, ast.Tuple) and len(
+                target.elts) == 2 and all(isinstance(e, ast.Name)
+                                          for e in target.elts):
+            out.append({target.elts[0].id: ast.Constant(value=k.value),
+                        target.elts[1].id: val(k)})
+        else:
+            return None
+    return out
+
+
+def fold_constants(trees):
+    """``getattr(o, 'name')`` -> ``o.name``; an ``if`` whose test compares
+    two constants (after unrolling over literal keys) keeps only the branch
+    taken."""
+    n = 0
+    for tree in trees.values():
+        for fn in _fn_scopes(tree):
+            for m in list(ast.walk(fn)):
+                if isinstance(m, ast.Call) and isinstance(
+                        m.func, ast.Name) and m.func.id == 'getattr' and \
+                        len(m.args) == 2 and not m.keywords and isinstance(
+                            m.args[1], ast.Constant) and isinstance(
+                            m.args[1].value, str) and \
+                        m.args[1].value.isidentifier():
+                    new = ast.copy_location(ast.Attribute(
+                        value=m.args[0], attr=m.args[1].value,
+                        ctx=ast.Load()), m)
+                    _replace_node(fn, m, new)
+                    n += 1
+            for blk in _blocks(fn):
+                for st in list(blk):
+                    if not (isinstance(st, ast.If) and isinstance(
+                            st.test, ast.Compare) and len(
+                            st.test.ops) == 1 and isinstance(
+                            st.test.left, ast.Constant) and isinstance(
+                            st.test.comparators[0], ast.Constant) and
+                            isinstance(st.test.ops[0], (ast.Eq, ast.NotEq))):
+                        continue
+                    eq = st.test.left.value == st.test.comparators[0].value
+                    take = eq == isinstance(st.test.ops[0], ast.Eq)
+                    keep = st.body if take else st.orelse
+                    j = blk.index(st)
+                    blk[j:j + 1] = keep or [ast.copy_location(
+                        ast.Pass(), st)]
+                    n += 1
+    return n
+
+
+def split_reassigned_locals(trees):
+    """A local that is assigned several times by plain statements of one
+    block and only used in that block after its first assignment (a
+    recycled temporary) gets one name per assignment."""
+    n = 0
+    for tree in trees.values():
+        for fn in _fn_scopes(tree):
+            params = {a.arg for a in fn.args.args + fn.args.kwonlyargs}
+            closed = {y.id for m in ast.walk(fn) if m is not fn and
+                      isinstance(m, (ast.FunctionDef, ast.Lambda,
+                                     ast.AsyncFunctionDef, ast.ClassDef))
+                      for y in ast.walk(m) if isinstance(y, ast.Name)}
+            names = {m.id for m in ast.walk(fn) if isinstance(m, ast.Name)}
+            total = {}
+            for m in ast.walk(fn):
+                if isinstance(m, ast.Name):
+                    total[m.id] = total.get(m.id, 0) + 1
+            for blk in _blocks(fn):
+                defs = {}
+                for i, st in enumerate(blk):
+                    if isinstance(st, ast.Assign) and len(
+                            st.targets) == 1 and isinstance(
+                            st.targets[0], ast.Name):
+                        defs.setdefault(st.targets[0].id, []).append(i)
+                for t, idx in defs.items():
+                    if len(idx) < 2 or t in params or t in closed:
+                        continue
+                    occ = [(i, m) for i, st in enumerate(blk)
+                           for m in ast.walk(st)
+                           if isinstance(m, ast.Name) and m.id == t]
+                    if len(occ) != total.get(t):
+                        continue        # used outside this block
+                    stores = [(i, m) for i, m in occ
+                              if not isinstance(m.ctx, ast.Load)]
+                    if len(stores) != len(idx):
+                        continue        # stored inside nested statements
+                    # no read before (or in) the first assignment
+                    if any(i < idx[0] or (i == idx[0] and isinstance(
+                            m.ctx, ast.Load)) for i, m in occ):
+                        continue
+                    for k, start in enumerate(idx[1:], 1):
+                        nm = '%s_%d' % (t, k + 1)
+                        while nm in names:
+                            nm += '_'
+                        names.add(nm)
+                        end = idx[k + 1] if k + 1 < len(idx) else len(blk)
+                        for i, m in occ:
+                            if i == start and not isinstance(
+                                    m.ctx, ast.Load):
+                                m.id = nm
+                            elif start < i < end:
+                                m.id = nm
+                            elif i == end and end < len(blk) and isinstance(
+                                    m.ctx, ast.Load):
+                                m.id = nm   # right-hand side of the next
+                    n += 1
+    return n
 
 
 def unnegate_ifs(trees):
@@ -1110,16 +2121,26 @@ def thread_none_tests(trees):
             return 'value'
         if isinstance(v, ast.Constant):
             return 'value'
+        # the result of arithmetic, of a comparison or of ``not`` is
+        # never None
+        if isinstance(v, (ast.BinOp, ast.Compare)) or (
+                isinstance(v, ast.UnaryOp) and isinstance(
+                    v.op, (ast.Not, ast.USub, ast.UAdd))):
+            return 'value'
         return None
 
-    def place(block, name, when_none, when_value):
+    def place(block, name, when_none, when_value, whole):
         last = block[-1]
         if isinstance(last, ast.If) and last.orelse and not (
                 isinstance(last, ast.Assign)):
-            place(last.body, name, when_none, when_value)
-            place(last.orelse, name, when_none, when_value)
+            place(last.body, name, when_none, when_value, whole)
+            place(last.orelse, name, when_none, when_value, whole)
             return
         k = known(last.value)
+        if k is None:
+            # undecided here: the test itself moves into the branch
+            block.append(copy.deepcopy(whole))
+            return
         extra = when_none if k == 'none' else when_value
         block.extend(copy.deepcopy(x) for x in extra)
 
@@ -1149,12 +2170,12 @@ def thread_none_tests(trees):
                     acc = []
                     if not _branch_final_assigns([s], x, acc):
                         continue
-                    if any(known(a.value) is None for a in acc):
+                    if all(known(a.value) is None for a in acc):
                         continue
                     is_none_test = isinstance(test.ops[0], ast.Is) != neg
                     when_none = t.body if is_none_test else t.orelse
                     when_value = t.orelse if is_none_test else t.body
-                    place([s], x, when_none, when_value)
+                    place([s], x, when_none, when_value, t)
                     blk.remove(t)
                     n += 1
                     # x = None that nothing reads any more is dropped
@@ -1376,11 +2397,19 @@ def propagate_pure_aliases(trees):
                         if t in banned or t in params or \
                                 stores.get(t) != 1:
                             continue
-                        if not isinstance(e, (ast.Attribute, ast.Subscript)) \
-                                or not _no_calls(e):
+                        is_len = isinstance(e, ast.Call) and isinstance(
+                            e.func, ast.Name) and e.func.id == 'len' and \
+                            len(e.args) == 1 and not e.keywords and \
+                            isinstance(e.args[0], ast.Name) and \
+                            e.args[0].id not in mutated and \
+                            'len' not in stores
+                        if not is_len and (
+                                not isinstance(e, (ast.Attribute,
+                                                   ast.Subscript))
+                                or not _no_calls(e)):
                             continue
                         # prefixes of e, and the names it reads
-                        pre, cur = [], e
+                        pre, cur = [], (e.args[0] if is_len else e)
                         while isinstance(cur, (ast.Attribute,
                                                ast.Subscript)):
                             pre.append(ast.unparse(cur))
@@ -1423,7 +2452,8 @@ def propagate_pure_aliases(trees):
                             if late or outside:
                                 continue
                         names = {m.id for m in ast.walk(e)
-                                 if isinstance(m, ast.Name)}
+                                 if isinstance(m, ast.Name)} - (
+                                     {'len'} if is_len else set())
                         if t in names:
                             continue
                         # something along the access path is changed in
